@@ -41,3 +41,12 @@ add('C17', 'ENUM', 'exploration',
     '(a) AggregatedWorkflowRuns.state is evaluated on every ordered list of workflow runs of the bounded alphabet (5.8M lists quick) and checked against the soundness clause of the statement (SUCCESSFUL only if some head branch has all considered workflows green; never when there is no run).',
     'Run dictionaries have the shape used by the pinned unit tests and are loaded with _validate=False; best run per workflow id, any tie-break accepted. Part (b) (status cache stickiness) is added by module C17b when present.',
     'exhaustive input enumeration vs soundness oracle', 'DESIGN.md section 5 C17')
+
+add('C03', 'SYS', 'model_checking',
+    'Histories of two pull requests in queue and skip-queue mode, with CI verdicts reported per branch / all at once / on superseded commits in any order, are executed on the real code; at every movement of a destination branch the new tip is looked up in the host build-status table (force merge and bypassed direct merges exempted as the statement says).',
+    'mock git host; pinned commit dates make a rebuilt queue commit identical to its predecessor (it inherits the reported status); bounds per exploration in the evidence.',
+    'explicit-state BFS of the real implementation with transition monitor', 'DESIGN.md section 5 C03')
+add('C06', 'ENUM+SYS', 'model_checking',
+    '(a) check_build_status on every status vector over 1-4 integration branches x bypass source x build key vs the statement; (b) BFS over histories where integration tips change between report and evaluation, monitor: a pull request that entered the queue or was merged directly has SUCCESSFUL on every integration commit, and waiting jobs do not comment.',
+    '(a) stub job/host; (b) mock git host, two pull requests, bounded depth (in the evidence).',
+    'exhaustive input enumeration + explicit-state BFS with transition monitor', 'DESIGN.md section 5 C06')
